@@ -148,6 +148,15 @@ def run_check(prop_id, tier, base_seed, budget_s, jobs, max_runs=None, quiet=Fal
         "samples": {}, "known_hit": Counter(), "dt": 0.0, "redo": 0, "nontrivial_runs": 0,
         "nontrivial_by_sub": Counter(), "runs_by_sub": Counter(),
     }
+    # regression: reproducers of fixed (and known) findings are replayed first; a fixed one that
+    # violates again is reported like any other violation (a fixed entry suppresses nothing)
+    reg = _replay_reproducers(prop, known, agg)
+    if reg is not None:
+        code, vio_info = reg
+        wall = time.time() - t_start
+        agg["evaluations"] = max(agg["evaluations"], 1)
+        write_evidence(prop, tier, base_seed, agg, wall, code, vio_info, jobs)
+        return code
     pending = {}  # start index -> future
     results = {}  # start index -> list
     next_start = 0
@@ -246,6 +255,36 @@ def run_check(prop_id, tier, base_seed, budget_s, jobs, max_runs=None, quiet=Fal
               f"discards={agg['status']['discard']} known_hits={sum(agg['known_hit'].values())} "
               f"wall={wall:.1f}s runs/h={rph} exit={code}", flush=True)
     return code
+
+
+def _replay_reproducers(prop, known, agg):
+    for entry in known:
+        if entry["property"] != prop.ID or not entry.get("replay"):
+            continue
+        path = os.path.join(VERIF, entry["replay"])
+        if not os.path.exists(path):
+            print(f"HARNESS-ERROR property={prop.ID} reproducer missing: {path}", flush=True)
+            return EXIT_HARNESS, None
+        try:
+            v, _rec = replay_file(path)
+        except Exception:  # noqa: BLE001
+            print(f"HARNESS-ERROR property={prop.ID} reproducer {path} failed to execute\n"
+                  + traceback.format_exc(), flush=True)
+            return EXIT_HARNESS, None
+        agg["stats"]["reproducers_replayed"] += 1
+        if v.status != "violation":
+            continue
+        if entry.get("status") == "known" and v.signature == entry["signature"]:
+            agg["known_hit"][entry["signature"]] += 1
+            continue
+        if known_match(known, prop.ID, v.signature) is not None:
+            agg["known_hit"][v.signature] += 1
+            continue
+        print(f"violation: {v.signature} reproduced by committed reproducer {entry['replay']} "
+              f"(entry status: {entry.get('status')})", flush=True)
+        print(f"VIOLATION property={prop.ID} replay={path}", flush=True)
+        return EXIT_VIOLATION, {"signature": v.signature, "replay": path, "index": -1}
+    return None
 
 
 def _merge(agg, rec, prop, base_seed, known):
